@@ -2,6 +2,7 @@ package vc
 
 import (
 	"fmt"
+	"strings"
 	"go/types"
 
 	"golang.org/x/tools/go/ssa"
@@ -199,8 +200,16 @@ func (e *Exec) onMapUpdate(fr *Frame, st *State, x *ssa.MapUpdate) {
 	if !ok {
 		return
 	}
+	ord := mapUpdateOrdinal(fr.fn, x, fname)
 	for i, om := range c.OnMapUpdates {
-		if om.Field != fname {
+		of := om.Field
+		if j := strings.Index(of, "#"); j >= 0 {
+			if of[j+1:] != fmt.Sprint(ord) {
+				continue
+			}
+			of = of[:j]
+		}
+		if of != fname {
 			continue
 		}
 		m := e.term(fr, st, x.Map)
@@ -210,11 +219,90 @@ func (e *Exec) onMapUpdate(fr *Frame, st *State, x *ssa.MapUpdate) {
 		en.vars["$key"] = ev{k, mt.Key()}
 		en.vars["$value"] = ev{e.val(fr, x.Value), mt.Elem()}
 		en.vars["$was"] = ev{e.mapValue(st, m, mt, k), mt.Elem()}
+		en.vars["$had"] = ev{e.mapHas(st, m, mt, k), types.Typ[types.Bool]}
 		en.vars["$owner"] = ev{e.val(fr, fa.X), fa.X.Type()}
 		lbl := om.Label
 		if lbl == "" {
 			lbl = fmt.Sprint(i + 1)
 		}
-		e.oblige(st, "on-map-update", fname+":"+lbl, e.evalClause(en, &Clause{Text: om.Text, Expr: om.Expr}), e.posOf(x))
+		e.clauseUsed["mapupd:"+om.Field+":"+lbl]++
+		e.oblige(st, "on-map-update", om.Field+":"+lbl, e.evalClause(en, &Clause{Text: om.Text, Expr: om.Expr}), e.posOf(x))
 	}
+}
+
+// onMapDelete checks the contract's on-map-delete assertions: the map must have been loaded from the
+// named struct field; $owner is the struct it was loaded from, $key the key, $was the value removed (zero if absent).
+func (e *Exec) onMapDelete(fr *Frame, st *State, x ssa.Instruction, mapv, keyv ssa.Value) {
+	if fr.parent != nil {
+		return
+	}
+	c := e.contractOf(fr.fn)
+	if c == nil || len(c.OnMapDeletes) == 0 {
+		return
+	}
+	ld, ok := mapv.(*ssa.UnOp)
+	if !ok {
+		return
+	}
+	fa, ok := ld.X.(*ssa.FieldAddr)
+	if !ok {
+		return
+	}
+	stt := derefStruct(fa.X.Type())
+	if stt == nil {
+		return
+	}
+	fname := stt.s.Field(fa.Field).Name()
+	mt, ok := mapv.Type().Underlying().(*types.Map)
+	if !ok {
+		return
+	}
+	for i, om := range c.OnMapDeletes {
+		if om.Field != fname {
+			continue
+		}
+		m := e.term(fr, st, mapv)
+		k := e.term(fr, st, keyv)
+		en := e.newEnv(fr, st, e.entry)
+		en.point = x
+		en.vars["$key"] = ev{k, mt.Key()}
+		en.vars["$was"] = ev{e.mapValue(st, m, mt, k), mt.Elem()}
+		en.vars["$owner"] = ev{e.val(fr, fa.X), fa.X.Type()}
+		lbl := om.Label
+		if lbl == "" {
+			lbl = fmt.Sprint(i + 1)
+		}
+		e.clauseUsed["mapdel:"+fname+":"+lbl]++
+		e.oblige(st, "on-map-delete", fname+":"+lbl, e.evalClause(en, &Clause{Text: om.Text, Expr: om.Expr}), e.posOf(x))
+	}
+}
+
+// mapUpdateOrdinal: 1-based rank of x among the map updates of fn (block order) whose map is loaded from field fname.
+func mapUpdateOrdinal(fn *ssa.Function, x *ssa.MapUpdate, fname string) int {
+	n := 0
+	for _, b := range fn.Blocks {
+		for _, in := range b.Instrs {
+			mu, ok := in.(*ssa.MapUpdate)
+			if !ok {
+				continue
+			}
+			ld, ok := mu.Map.(*ssa.UnOp)
+			if !ok {
+				continue
+			}
+			fa, ok := ld.X.(*ssa.FieldAddr)
+			if !ok {
+				continue
+			}
+			stt := derefStruct(fa.X.Type())
+			if stt == nil || stt.s.Field(fa.Field).Name() != fname {
+				continue
+			}
+			n++
+			if mu == x {
+				return n
+			}
+		}
+	}
+	return 0
 }
